@@ -157,7 +157,7 @@ func c17Doc(r *fw.Rand) (*docdid.Doc, []c17Key, string) {
 				// characters beyond the basic plane (written as surrogate-pair escapes by some serializers), the line separators, a name made of them
 				// numbers of every notation class of the canonical form (small and large exponents, the switch-over points, beyond 2^53)
 				"weight": fw.Pick(r, []interface{}{2.5e-7, 1e-9, 1.5e-8, 9.99e-7, 0.000001, 123456789012345680000.0, 1e21, 1.5e300, 9007199254740993.0, -2.5e-8, 0.1, 5e-324}),
-				"label": fw.Pick(r, []string{"\U0001F600 ok", "clef \U0001D11E", "\U0010FFFF", "sep\u2028\u2029", "caf\u00e9 \u20ac"}), "\U0001F511": "k"}
+				"label":  fw.Pick(r, []string{"\U0001F600 ok", "clef \U0001D11E", "\U0010FFFF", "sep\u2028\u2029", "caf\u00e9 \u20ac"}), "\U0001F511": "k"}
 			shape += "X"
 		}
 		d.Service = append(d.Service, svc)
